@@ -336,8 +336,9 @@ def _serve(directory):
             rng = self.headers.get("Range")
             path = self.translate_path(self.path)
             import os
+            k = None
             if H.fault and H.fault[0] == 0:
-                k = H.fault[1]
+                k = str(H.fault[1])
                 if not (len(H.fault) > 2 and H.fault[2]):
                     H.fault = None
                 if k in ("404", "403", "500", "503"):
@@ -347,15 +348,27 @@ def _serve(directory):
                     self.connection.close()
                     return
             elif H.fault:
-                H.fault = (H.fault[0] - 1, H.fault[1])
+                H.fault = (H.fault[0] - 1,) + tuple(H.fault[1:])
             if not os.path.isfile(path):
                 self.send_error(404)
                 return
             data = open(path, "rb").read()
             if rng:
                 a, b = rng.split("=")[1].split("-")
+                if int(a) >= len(data) and not (int(a) == 0 and len(data) == 0):
+                    self.send_error(416)
+                    return
+                whole = data
                 data = data[int(a):int(b) + 1]
-                self.send_response(206)
+                status = 206
+                # misbehaving replies to a Range request (same as the model server)
+                if k == "short" and len(data):
+                    data = data[:-1]
+                elif k == "long":
+                    data = data + b"\0"
+                elif k == "ignore-range":
+                    data, status = whole, 200
+                self.send_response(status)
             else:
                 self.send_response(200)
             self.send_header("Content-Length", str(len(data)))
@@ -373,6 +386,8 @@ def _serve(directory):
                 if k == "conn":
                     self.connection.close()
                     return
+            elif H.fault:
+                H.fault = (H.fault[0] - 1,) + tuple(H.fault[1:])      # the model counts HEAD probes as requests too
             return http.server.SimpleHTTPRequestHandler.do_HEAD(self)
     srv = http.server.ThreadingHTTPServer(("127.0.0.1", 0), functools.partial(H, directory=directory))
     t = threading.Thread(target=srv.serve_forever, daemon=True)
@@ -387,7 +402,29 @@ def replay(cfg, cex):
     inp = cex["inputs"]
     acc_mod = load.mod("accessor")
     if h == "dispatch":
-        return True, "dispatch table violated: " + str(inp["bad"][:2])
+        sh = {"@type": "neuroglancer_uint64_sharded_v1", "minishard_bits": 0, "shard_bits": 0, "preshift_bits": 0, "hash": "identity",
+              "minishard_index_encoding": "raw", "data_encoding": "raw"}
+        base = dict(key="a", size=[1, 1, 1], chunk_sizes=[[1, 1, 1]], encoding="raw", resolution=[1, 1, 1], voxel_offset=[0, 0, 0])
+        cases = [([dict(base)], False), ([dict(base, sharding=sh)], True), ([dict(base, sharding=sh), dict(base, key="b")], False),
+                 ([dict(base, sharding=sh), dict(base, key="b", sharding=sh)], True), ([], False)]
+        with tempfile.TemporaryDirectory() as td:
+            os.makedirs(os.path.join(td, "ds"))
+            srv, H = _serve(td)
+            try:
+                url = f"http://127.0.0.1:{srv.server_address[1]}/ds"
+                for scales, want in cases:
+                    with open(os.path.join(td, "ds", "info"), "w") as f:
+                        json.dump(dict(type="image", data_type="uint8", num_channels=1, scales=scales), f)
+                    for sp in (url, url + "/", "precomputed://" + url):
+                        try:
+                            acc = acc_mod.get_accessor_for_url(sp)
+                        except Exception as e:
+                            return True, f"{len(scales)} scale(s), sharded={want}, URL spelling {sp.replace(url, '<url>')}: {type(e).__name__}: {e}"
+                        if (type(acc).__name__ == "ShardedHttpAccessor") != want:
+                            return True, f"{len(scales)} scale(s), all sharded={want}, URL spelling {sp.replace(url, '<url>')}: dispatched to {type(acc).__name__}"
+            finally:
+                srv.shutdown()
+        return False, "dispatch follows the info on the real code"
     if h == "two_scales":
         sfa = load.mod("sharded_file_accessor")
         sha = load.mod("sharded_http_accessor")
@@ -516,8 +553,6 @@ def replay(cfg, cex):
                 return False, "HTTP reads equal local reads"
             cc, r, kind = inp["case"]
             cc = tuple(cc)
-            if kind in ("short", "long", "ignore-range"):
-                return True, f"model-level: range reply fault {kind} on request {r} returned wrong bytes"
             H.fault = (r, kind)
             try:
                 a = sha.ShardedHttpAccessor(url)
